@@ -43,6 +43,17 @@ func init() {
 	reg("(encoding/binary.bigEndian).PutUint64", put(8))
 
 	reg("github.com/google/gopacket.DecodeFeedback.SetTruncated", func(c *callCtx) Val { return Val{} })
+	layerTypeOf := func(c *callCtx) Val {
+		// LayerType() of a network layer held in an interface: determined by its dynamic type
+		ex := c.ex
+		lp := ex.w.pkgs["github.com/google/gopacket/layers"]
+		t4 := num(int64(ex.w.typeID(types.NewPointer(lp.Pkg.Scope().Lookup("IPv4").Type()))))
+		t6 := num(int64(ex.w.typeID(types.NewPointer(lp.Pkg.Scope().Lookup("IPv6").Type()))))
+		other := ex.freshConst("layertype", sInt)
+		return intVal(ite(eq(c.args[0].L[0], t4), "20", ite(eq(c.args[0].L[0], t6), "21", other)))
+	}
+	reg("github.com/google/gopacket.NetworkLayer.LayerType", layerTypeOf)
+	reg("github.com/google/gopacket.Layer.LayerType", layerTypeOf)
 	reg("(golang.org/x/net/ipv4.ICMPType).Protocol", func(c *callCtx) Val { return intVal("1") })
 	reg("(golang.org/x/net/ipv6.ICMPType).Protocol", func(c *callCtx) Val { return intVal("58") })
 
